@@ -81,6 +81,14 @@ CHECKS = {
             'A sector that passes CRC but is no recorded data is a CRC collision and is only counted; encoders validated '
             'by the pristine decode in every case.',
             'exhaustive single-fault (and bounded double-fault) enumeration over track bit-streams, in-process decoder + real binary'),
+    'C05': ('exploration', '4 C05',
+            'The same disc recorded as a sector dump and as HFE v1 / HFE v3 / HxC-MFM flux images by independent encoders: '
+            'encodings x containers x 1/2 sides x track counts x sectors/track, all n! physical sector orders for n<=5 and all '
+            'rotations x coprime interleave steps for 10/16/18, a 4^4 grid of gap1/gap2/gap3/sync lengths, padded/unpadded '
+            'tracks, and one HFEv3 opcode (NOP/SETINDEX/SETBITRATE) at every stream byte position; every command must give '
+            'identical stdout/exit/extracted files on both.',
+            'SKIPBITS/RAND opcodes are not generated (specification unavailable offline); encoders lib/flux.py.',
+            'bounded-exhaustive differential exploration (flux image vs sector dump of the same disc)'),
 }
 
 NA_REASON = 'check not built yet (work in progress; see DESIGN.md section 4)'
